@@ -144,6 +144,11 @@ func (os *ObjectStream) parseHeader() error {
 	headerData := os.decoded[:os.first]
 	parser := NewParser(bytes.NewReader(headerData))
 
+	// Every (object number, offset) pair takes at least four bytes of the
+	// header; /N comes from the file and must not size an allocation alone
+	if os.n > len(headerData) {
+		return fmt.Errorf("object stream claims %d objects in a %d-byte header", os.n, len(headerData))
+	}
 	os.offsets = make([]objectStreamOffset, 0, os.n)
 
 	for i := 0; i < os.n; i++ {
